@@ -41,7 +41,12 @@ PNG_COL = [({}, '#000', '#fff'), (dict(dark='darkblue'), 'darkblue', '#fff'), (d
            (dict(dark=(1, 2, 3, 0.3)), (1, 2, 3, 0.3), '#fff'),
            # opaque greys (R=G=B) other than black/white, alone and with the defaults
            (dict(light='#eee'), '#000', '#eee'), (dict(dark='#333'), '#333', '#fff'), (dict(dark=(40, 40, 40), light=None), (40, 40, 40), None),
-           (dict(dark='gray', light='silver'), 'gray', 'silver'), (dict(light='yellow'), '#000', 'yellow')]
+           (dict(dark='gray', light='silver'), 'gray', 'silver'), (dict(light='yellow'), '#000', 'yellow'),
+           # alpha exactly 0 (int and float) = fully transparent; images whose dark and light colour are the same
+           (dict(light=(255, 255, 255, 0)), '#000', (255, 255, 255, 0)), (dict(dark=(0, 0, 0, 0.0), light='#fff'), (0, 0, 0, 0.0), '#fff'),
+           (dict(dark=(10, 20, 30, 0), light=(200, 210, 220)), (10, 20, 30, 0), (200, 210, 220)), (dict(light='#ffffff00'), '#000', '#ffffff00'),
+           (dict(dark='#fff', light='white'), '#fff', '#fff'), (dict(dark='black', light='#000'), '#000', '#000'), (dict(dark='red', light='#f00'), 'red', 'red'),
+           (dict(dark='#eee', light=(238, 238, 238)), '#eee', '#eee')]
 GREY_ALIASES = [('gray', 'grey'), ('darkgray', 'darkgrey'), ('dimgray', 'dimgrey'), ('lightgray', 'lightgrey'), ('slategray', 'slategrey'),
                 ('darkslategray', 'darkslategrey'), ('lightslategray', 'lightslategrey'), ('aqua', 'cyan'), ('fuchsia', 'magenta')]
 COLORS = {
@@ -58,7 +63,9 @@ COLORS = {
             # colours with an alpha channel (RGB_ALPHA)
             (dict(dark='#0a141e80'), '#0a141e80', '#fff'), (dict(light=(200, 210, 220, 128)), '#000', (200, 210, 220, 128)),
             (dict(dark=(0, 0, 0, 0.5), light=None), (0, 0, 0, 0.5), None), (dict(dark=(0, 0, 0, 128), light=(255, 255, 255, 64)), (0, 0, 0, 128), (255, 255, 255, 64)),
-            (dict(dark='#fff8', light='#0008'), '#ffffff88', '#00000088')],
+            (dict(dark='#fff8', light='#0008'), '#ffffff88', '#00000088'),
+            (dict(light=(255, 255, 255, 0)), '#000', (255, 255, 255, 0)), (dict(dark=(0, 0, 0, 0.0)), (0, 0, 0, 0.0), '#fff'),
+            (dict(dark='red', light='#f00'), 'red', 'red'), (dict(dark='black', light='#000'), '#000', '#000')],
     'ppm': [({}, '#000', '#fff'), (dict(dark='red', light='tan'), 'red', 'tan'), (dict(dark='white', light='black'), 'white', 'black'),
             (dict(light='#eee'), '#000', '#eee'), (dict(dark='#333', light='yellow'), '#333', 'yellow')],
     'xbm': [({}, '#000', '#fff'), (dict(name='qr_code'), '#000', '#fff')],
